@@ -16,7 +16,9 @@ LEVEL = "model_checking"
 NSHARDS = 64
 
 P_FALSE = ((), (("bold", False),), (("bold", False), ("fg", 31)), (("fg", 31),))
-REPR_TEXTS = ("it's", 'say "hi"', "back\\slash", "new\nline", "tab\t", "é", "Ｅ", "'\"", "")
+REPR_TEXTS = ("it's", 'say "hi"', "back\\slash", "new\nline", "tab\t", "é", "Ｅ", "'\"", "",
+              # beyond the BMP: zero-width (musical combining, variation selector supplement, Grantha sign), wide (emoji, CJK ext B), ordinary
+              "a\U0001d167b", "x\U000e0100", "\U00011301", "\U0001f600!", "\U00020000", "\U00010400q", "e\u0301\u200d", "\x7f\x9b\xa0\xad", "\ud800")
 
 
 def universe(tier):
@@ -230,8 +232,112 @@ def shard_scale(args):
     return acc.export()
 
 
+def rendered_offsets(f):
+    """Offsets in the fresh terminal string at which each run's rendering starts, and where its text starts."""
+    from curtsies.formatstring import Chunk
+
+    starts, text_starts, pos = [], [], 0
+    for c in f.chunks:
+        piece = Chunk(str(c.s), dict(c.atts)).color_str
+        starts.append(pos)
+        k = piece.find(c.s) if c.s else -1
+        text_starts.append(pos + (k if k >= 0 else 0))
+        pos += len(piece)
+    return starts, text_starts, pos
+
+
+def shard_history(args):
+    """(a) comparison of a NEVER RENDERED many-run value with near misses of its terminal string (a character inserted / removed /
+    changed at the start of every run's rendering, where its text starts, and at the ends) - fresh object per comparison, then the
+    same after rendering; (b) the equal partner of a comparison dies and other values of the same rendered length are created where it
+    lived (id reuse): every one of them must still compare unequal, both ways."""
+    tier, seed, idx, nshards = args
+    import gc
+
+    acc = Acc(seed=seed, sample_stride=4999)
+    specs = [C.scale_spec(n, sh) for n, sh in ((40, "runs7"), (64, "unit_runs"), (210, "runs7"), (90, "words"), (333, "wide"), (36, "one"), (130, "unit_runs"), (1500, "runs7"))]
+    specs += [sp for sp in C.exotic_specs() if len(sp) >= 8][:6]
+    for si in range(idx, len(specs), nshards):
+        spec = specs[si]
+        shown = {"value": {"characters": sum(len(t) for t, _ in spec), "runs": len(spec), "first_runs": C.show_spec(spec[:3])}}
+        ref = C.build(spec)
+        sf = fresh_str(ref)
+        starts, text_starts, total = rendered_offsets(ref)
+        pts = sorted(set(starts[:20] + starts[-20:] + text_starts[:20] + text_starts[-20:] + [0, 1, total - 1, total, total // 2]))
+        pts = [p_ for p_ in pts if 0 <= p_ <= total]
+        for p_ in pts:
+            for kind in ("insert", "delete", "change"):
+                if kind == "insert":
+                    s2 = sf[:p_] + "Q" + sf[p_:]
+                elif kind == "delete":
+                    s2 = sf[:p_] + sf[p_ + 1 :]
+                else:
+                    s2 = sf[:p_] + ("#" if sf[p_ : p_ + 1] != "#" else "%") + sf[p_ + 1 :]
+                if s2 == sf:
+                    continue
+                for rendered_first in (False, True):
+                    f = C.build(spec)
+                    if rendered_first:
+                        str(f), hash(f)
+                    case = dict(shown, compared_with="terminal string with one character %sd at offset %d of %d" % (kind.rstrip("e"), p_, total), rendered_first=rendered_first)
+                    acc.case(True, key=("near", si, p_, kind, rendered_first), sample=case)
+                    acc.transitions += 1
+                    try:
+                        a, b, c_, d = (f == s2), (s2 == f), (f != s2), (s2 != f)
+                    except Exception as ex:  # noqa
+                        acc.failure("C19:eq_raises:" + type(ex).__name__, case, repr(ex))
+                        continue
+                    if a or b or not c_ or not d:
+                        acc.failure("C19:eq_str_vs_terminal_string", case, "f==s:%r s==f:%r f!=s:%r s!=f:%r, expected unequal" % (a, b, c_, d))
+        # the exact terminal string, never rendered / rendered
+        for rendered_first in (False, True):
+            f = C.build(spec)
+            if rendered_first:
+                str(f)
+            if not (f == sf and sf == f) or f != sf:
+                acc.failure("C19:eq_str_vs_terminal_string", dict(shown, compared_with="its exact terminal string", rendered_first=rendered_first), "expected equal")
+        # (b) dead partner
+        last = next((k for k in range(len(spec) - 1, -1, -1) if spec[k][0]), None)
+        if last is None:
+            continue
+        t_ = spec[last][0]
+        other = spec[:last] + ((t_[:-1] + ("#" if t_[-1] != "#" else "%"), spec[last][1]),) + spec[last + 1 :]
+        current = C.build(spec)
+        for rnd in range(3):
+            previous = C.build(spec)
+            str(previous), str(current), hash(previous), hash(current)
+            ok = (current == previous) and (previous == current) and (current == previous)
+            if not ok:
+                acc.failure("C19:eq_vs_terminal_string", dict(shown, other="equal twin"), "expected equal")
+            address = id(previous)
+            del previous
+            gc.collect()
+            keep = []
+            hit = False
+            for k in range(1500):
+                cand = C.build(other)
+                str(cand)
+                hit = hit or id(cand) == address
+                acc.transitions += 1
+                eq, eq2 = (current == cand), (cand == current)
+                if eq or eq2 or (current != cand) is False:
+                    acc.failure("C19:eq_vs_terminal_string", dict(shown, other="a different value of the same rendered length, created after the equal partner of an earlier comparison died", candidate_number=k, same_address_as_dead_partner=id(cand) == address),
+                                "==:%r reversed==:%r although the terminal strings differ" % (eq, eq2))
+                    break
+                if hit and k > 40:
+                    break
+                keep.append(cand)
+            acc.case(True, key=("dead", si, rnd), sample=dict(shown, family="dead partner"))
+            if hit:
+                acc.add("dead_partner_address_reused")
+            del keep
+    return acc.export()
+
+
 def run(ctx):
     rep = Report()
+    for d in ctx.pmap(shard_history, [(ctx.tier, ctx.seed, i, 14) for i in range(14)]):
+        rep.merge(d, "near_miss_strings_and_dead_partners")
     repeat.run_into(ctx, rep, "C19")
     for d in ctx.pmap(shard_scale, [(ctx.tier, ctx.seed, i, 32) for i in range(32)]):
         rep.merge(d, "scale_sweep")
